@@ -43,6 +43,14 @@ uint64_t resolveArg(const std::string& tok, uint64_t m, uint64_t pos) {
 	return parseU64(tok);
 }
 
+// A container whose own size() has a narrow unsigned type (the size-prefixed write is a template over the container too).
+template <class S> struct NarrowVec {
+	typedef uint8_t value_type;
+	std::vector<uint8_t> v;
+	S size() const { return static_cast<S>(v.size()); }
+	const uint8_t* data() const { return v.data(); }
+};
+
 std::string argTok(Rng& r, int boundaryPercent) {
 	if (r.chance(static_cast<uint64_t>(boundaryPercent), 100)) {
 		static const char* B[] = {"0x7fffffff", "0x80000000", "0xffffffff", "0x100000000", "0x7fffffffffffffff", "0x8000000000000000", "0xffffffffffffffff", "0xfffffffffffffffe", "W+0", "W+1", "W+2", "W+7"};
@@ -311,6 +319,8 @@ struct WriterActors : Family {
 					};
 					if (it.elem == "4") { std::vector<uint32_t> c(static_cast<size_t>(it.n)); memcpy(c.data(), d.data(), d.size()); o = lib([&] { doWrite(c); }, &what); }
 					else if (it.elem == "s") { std::string c(d.begin(), d.end()); o = lib([&] { doWrite(c); }, &what); }
+					else if ((it.v & 3) == 0 && it.n <= 255) { NarrowVec<uint8_t> c{d}; o = lib([&] { doWrite(c); }, &what); ctx.count("probe.container_with_narrow_size_type"); }
+					else if ((it.v & 3) == 0 && it.n <= 65535) { NarrowVec<uint16_t> c{d}; o = lib([&] { doWrite(c); }, &what); ctx.count("probe.container_with_narrow_size_type"); }
 					else { std::vector<uint8_t> c(d); o = lib([&] { doWrite(c); }, &what); }
 					if (!ok) ctx.count("probe.prefix_too_small");
 					if (ok && it.n == maxv) ctx.count("probe.prefix_exactly_full");
